@@ -450,8 +450,19 @@ class Runner:
         self.obs = []
         self.model_ops = []
         self.nontrivial = False
+        self.naive = {}      # op number -> rows the plain evaluation keeps (exact cells), or None when it raises
+        self.suspect = {}    # table id -> signature of the failed operation that produced it (or an ancestor of it)
+        self.cur_t = None
+        self.last_sig = None
 
     def fail(self, what, sig):
+        # a table returned by an operation that already violated the property (e.g. a view with repeated / unordered row
+        # numbers after P8) is not a sound starting point: what goes wrong on it is reported as a consequence of that failure
+        generic = sig.startswith(("where:", "groupby:", "copy:", "list-raised"))     # not explained by a known trigger of its own
+        if generic and self.cur_t in self.suspect:
+            sig = "downstream:" + self.suspect[self.cur_t]
+            what = what + " [the table operated on was itself returned by an operation that violated the property]"
+        self.last_sig = sig
         self.fails.append(F("B", what, sig))
 
     def run(self):
@@ -488,7 +499,14 @@ class Runner:
                     tables.append(None)
                 continue
             self.model_ops.append(self.model_op(op, cols))
+            self.cur_t, self.last_sig = op["t"], None
+            ntab = len(tables)
             getattr(self, "do_" + k)(n, op, t, tables, cols, rows, idx)
+            if len(tables) > ntab:
+                if op["t"] in self.suspect:
+                    self.suspect[ntab] = self.suspect[op["t"]]
+                elif self.last_sig is not None:
+                    self.suspect[ntab] = self.last_sig[len("downstream:"):] if self.last_sig.startswith("downstream:") else self.last_sig
         return self
 
     # ---- conversions for the model
@@ -739,6 +757,7 @@ class Runner:
         except Undefined:
             exp, undefined = None, True
             self.tags.append("where:plain-evaluation-raises")
+        self.naive[n] = None if undefined else [[from_py(v) for v in r] for r in exp]
         try:
             r = where_call(t, op, cols)
             cols2, rows2 = snap(r)
@@ -965,8 +984,8 @@ class Gen:
         k = r.below(10)
         if k == 0:
             a["as"] = "tuple"
-        elif k == 1 and len({json.dumps(v) for v in vs}) == len(vs):
-            a["as"] = "set"
+        elif k == 1 and len({("null" if v[0] in "nm" else (v[1] / (v[2] if v[0] == "f" else 1)) if v[0] in "if" else v[1]) for v in vs}) == len(vs):
+            a["as"] = "set"      # only when no two members are equal for Python (2 == 2.0, Missing == None): a set would drop one
         return a
 
     def cellpred(self, col):
@@ -1277,8 +1296,8 @@ def _cols_at(case, op):
 class C17(Property):
     id = "C17"
     prop_modules = ["CobaVerif.Props.C17"]
-    quick_n = 2500
-    thorough_n = 40000
+    quick_n = 8000
+    thorough_n = 60000
     search_n = 4000
     case_timeout = 60
     workers = 8
@@ -1345,6 +1364,8 @@ class C17(Property):
         cs.append(mk("ab", [[1, "a1"], [12, "12"], [2, "x12y"], [1, "121"]], W(0, b={"d": ["match", V(12)]}), W(0, a={"d": ["match", V(1)]}), W(0, a={"d": ["match", V("1")]}), W(0, b={"d": ["match", V(1)]})))
         cs.append({"init": {"kind": "columns", "columns": ["a", "b"]}, "ops": [
             {"op": "insert", "t": 0, "shape": "dicts", "rows": [[], []]}, {"op": "insert", "t": 0, "shape": "dicts", "rows": [[["a", ["i", 1]]], []]}]})
+        # a where on the (broken) view P8 returns: the repeated row numbers make View._try_slice take it for a slice
+        cs.append(mk("ab", [[1, 4], [2, 0], [3, 2], [3, 2], [0, 2]], IX(0, "a"), W(0, a={"d": ["in", dict(L(3, 0, 3, 2), **{"as": "tuple"})]}), W(1, b=L(2))))
         # boundaries: first/last group, probes below/above the range, multi-level index, where-of-where, views as slices and lists
         rows = [[a, b, c] for a in (1, 2, 3) for b in ("x", "y") for c in (0, 1)]
         for o in OPS[:6]:
@@ -1358,6 +1379,58 @@ class C17(Property):
                      W(0, b={"d": ["!=", V("y")]}), {"op": "groupby", "t": 0, "level": 1, "select": {"many": ["a", "b"]}}, {"op": "copy", "t": 0}, W(6, a=L(1, "M"))))
         cs.append(mk("ab", [[1, 1.0], [1.0, 1], [0.5, 2], [2, 0.5]], IX(0, "a", "b"), W(0, a=V(1)), W(0, a=L(1, 1.0)), W(0, b={"d": ["<=", V(1)]}), {"op": "groupby", "t": 0, "level": 1, "select": "count"}))
         return cs
+
+    def exhaustive(self, tier):
+        """finite sweep (thorough tier): every table of <= 4 rows over {1, 2, Missing} (plus a row-id column), unindexed and
+        indexed, x every operator = != < <= > >= with values below / inside / above the data, in / !in with every small
+        collection incl. empty, absent, unsorted and repeated values, positional and {op: value} form, and a where-of-where;
+        every table of <= 3 rows over {1,2} x {1,2,Missing} with a two-level index, conditions on the second level, groupby"""
+        import itertools
+        vals = [1, 2, "M"]
+        scal = [0, 1, 2, 3]
+        colls = [[], [1], [2], [3], [1, 2], [2, 1], [1, 3], [1, 1], [3, 1, 2], [2, 2, 1]]
+        out = []
+        for n in range(0, 5):
+            for tup in itertools.product(vals, repeat=n):
+                rows = [[v, i] for i, v in enumerate(tup)]
+                for indexed in (False, True):
+                    ops = [IX(0, "a")] if indexed else []
+                    k = 0
+                    first = None      # table id of the result of `a != 2`, target of the where-of-where queries
+                    for o in OPS[:6]:
+                        for v in scal:
+                            k += 1
+                            if o == "!=" and v == 2:
+                                first = 1 + sum(1 for x in ops if x["op"] == "where")
+                            ops.append(W(0, a={"d": [o, V(v)]}) if k % 2 else W(0, pos=o, a=V(v)))
+                    for o in ("in", "!in"):
+                        for c in colls:
+                            k += 1
+                            ops.append(W(0, a={"d": [o, L(*c)]}) if k % 2 else W(0, pos=o, a=L(*c)))
+                    ops.append(W(0, a=V("M")))
+                    ops.append(W(0, a=L(1, "M")))
+                    for o in OPS[:6]:
+                        ops.append(W(first, a={"d": [o, V(2)]}))
+                    ops.append(W(first, a=L(2, 3)))
+                    ops.append({"op": "groupby", "t": 0, "level": 0, "select": {"many": ["a", "b"]}})
+                    out.append(mk("ab", rows, *ops))
+        for n in range(0, 4):
+            for tup in itertools.product(list(itertools.product([1, 2], vals)), repeat=n):
+                rows = [[a, c, i] for i, (a, c) in enumerate(tup)]
+                ops = [IX(0, "a", "c")]
+                for o in OPS[:6]:
+                    for v in (0, 1, 2, 3):
+                        ops.append(W(0, c={"d": [o, V(v)]}))
+                for c in ([], [1], [3], [2, 1], [1, 1]):
+                    ops.append(W(0, c=L(*c)))
+                    ops.append(W(0, pos="!in", c=L(*c)))
+                ops.append(W(0, a=V(1), c=V(2)))
+                ops.append(W(0, a=V(2)))
+                ops.append(W(len([x for x in ops if x["op"] == "where"]), c={"d": ["<=", V(1)]}))
+                ops.append({"op": "groupby", "t": 0, "level": 1, "select": {"many": ["a", "c", "b"]}})
+                ops.append({"op": "groupby", "t": 0, "level": 0, "select": "count"})
+                out.append(mk("acb", rows, *ops))
+        return out
 
     # ---- evaluation
     def evaluate(self, case, driver):
@@ -1382,6 +1455,26 @@ class C17(Property):
                     break
             if len(model) != len(run.obs):
                 fails.append(F("A", "model answered %d observations for %d" % (len(model), len(run.obs)), "A:length"))
+            # (C) the theorem at run time: where the hypotheses of where_eq_spec hold and the plain evaluation is defined,
+            # the model's result is the specification's
+            for k, sp in enumerate(ans.get("spec", [])):
+                if not sp:
+                    continue
+                tags.append("C:where-hyp-" + ("holds" if sp["hyp"] else "fails"))
+                m = model[k + 1]
+                # the Lean specification and the harness' plain evaluation are two readings of the same sentence: they must agree
+                if not any(f["kind"] == "A" for f in fails) and k in run.naive and "pred" in case["ops"][k] and not case["ops"][k].get("pred"):
+                    nv = run.naive[k]
+                    if isinstance(sp["spec"], list) and nv is not None and nv != sp["spec"]:
+                        fails.append(F("C", "op #%d: the harness' plain evaluation keeps %s, whereS keeps %s" % (k, json.dumps(nv)[:300], json.dumps(sp["spec"])[:300]), "C:naive-vs-whereS"))
+                    elif isinstance(sp["spec"], list) and nv is None:
+                        tags.append("C:whereS-defined-naive-raises")
+                    elif isinstance(sp["spec"], dict) and nv is not None:
+                        tags.append("C:whereS-raises-naive-defined:" + sp["spec"].get("err", "?"))
+                if sp["hyp"] and isinstance(sp["spec"], list):
+                    tags.append("C:where-checked")
+                    if m.get("rows") != sp["spec"]:
+                        fails.append(F("C", "op #%d: hypotheses of where_eq_spec hold but the model returns %s and whereS %s" % (k, json.dumps(m)[:300], json.dumps(sp["spec"])[:300]), "C:where_eq_spec"))
         return {"fails": fails, "nontrivial": run.nontrivial, "tags": tags, "impl": run.obs, "model": model}
 
     def shrink(self, case):
